@@ -28,10 +28,10 @@ var nondetFuncs = map[string]string{
 
 // reviewed uses of nondeterminism sources: function -> reason (none of them feeds an execution outcome)
 var nondetAllowed = map[string]string{
-	"runtime.reportMetric":                              "metrics: measures the duration of a phase and reports it to the host's Metrics interface",
-	"runtime.(CoverageReport).MarshalJSON":              "coverage tooling",
-	"bbq/vm.(VM).popCallFrame":                          "tracing span duration (only when tracing is enabled; not part of the result)",
-	"bbq/vm.(VM).pushCallFrame":                         "tracing span start",
+	"runtime.reportMetric":                                         "metrics: measures the duration of a phase and reports it to the host's Metrics interface",
+	"runtime.(CoverageReport).MarshalJSON":                         "coverage tooling",
+	"bbq/vm.(VM).popCallFrame":                                     "tracing span duration (only when tracing is enabled; not part of the result)",
+	"bbq/vm.(VM).pushCallFrame":                                    "tracing span start",
 	"interpreter.(Interpreter).invokeInterpretedFunctionActivated": "tracing",
 }
 
